@@ -61,7 +61,7 @@ pub fn c14_case(u: &mut Unstructured) -> AResult<c14::Case> {
     let nops = u.int_in_range(0..=16)?;
     let mut ops = Vec::new();
     for _ in 0..nops {
-        let op = match u.int_in_range(0..=12)? {
+        let op = match u.int_in_range(0..=13)? {
             0 => c14::Op::New,
             1 => c14::Op::WithCapacity(u.int_in_range(0..=130)?),
             2 => c14::Op::Blank(u.int_in_range(0..=130)?),
@@ -83,6 +83,16 @@ pub fn c14_case(u: &mut Unstructured) -> AResult<c14::Case> {
                 u.arbitrary()?,
             ),
             11 => c14::Op::Set(u.arbitrary()?, u.arbitrary::<u8>()? & 3),
+            12 => c14::Op::FromHashn(
+                {
+                    let n = u.int_in_range(0..=130)?;
+                    u.bytes(n)?.to_vec()
+                },
+                {
+                    let n = u.int_in_range(0..=5)?;
+                    u.bytes(n)?.to_vec()
+                },
+            ),
             _ => c14::Op::Clear,
         };
         ops.push(op);
